@@ -60,18 +60,6 @@ func isASCII(s string) bool {
 	return true
 }
 
-// rcptClass is the input class of a recipient used in signatures.
-func (m *msgSpec) rcptClass(r string) string {
-	c := "ascii"
-	switch {
-	case !isASCII(localPart(r)):
-		c = "utf8-local"
-	case !isASCII(r):
-		c = "idn-domain"
-	}
-	return c
-}
-
 // byLocal maps a name seen downstream / in a report back to the recipient as
 // handed to the queue. Every distinct recipient of a generated message has its
 // own local part and no conversion maddy applies touches the local part, so the
@@ -332,15 +320,18 @@ type verdict struct {
 
 type oracleCfg struct {
 	Kind       string // atomic partial remote smtp lmtp
-	Extra      string // extra signature element for real kinds ("srv-utf8=off"), may be ""
+	NoUTF8Hop  bool   // real kinds: the scripted next hop does not offer SMTPUTF8
 	MaxTries   int
 	Suppressed bool // null sender or no bounce pipeline
+	// NotQuiescent: the run was cut short (runaway retries); only the rules that
+	// do not need the end of the history are applied.
+	NotQuiescent bool
 }
 
-// dupClauses are the clauses for which "the recipient was handed to the queue
-// twice" is part of the cause class.
+// dupClauses are the clauses for which "a recipient was handed to the queue
+// twice" is taken as the cause class of the witness.
 var dupClauses = map[string]bool{"retry-after-success": true, "retry-after-permanent": true, "over-max-tries": true,
-	"reported-twice": true, "delivered-twice": true, "delivered-and-reported": true}
+	"reported-twice": true, "delivered-twice": true, "delivered-and-reported": true, "attempt-without-pending-recipient": true}
 
 func terminalClass(c string) bool { return c == mx.OK || c == mx.Perm }
 
@@ -352,16 +343,27 @@ func judge(cfg oracleCfg, m *msgSpec, atts []*attempt, reports []report) *verdic
 		v.States[r] = &rcptState{}
 		v.Order = append(v.Order, r)
 	}
-	add := func(clause, r, cause, what string) {
-		sig := clause + "/kind=" + cfg.Kind
-		if r != "" {
-			sig += "/rcpt=" + m.rcptClass(r)
-			if m.isDup(r) && dupClauses[clause] {
-				sig += "/handed-twice"
-			}
+	anyDup := false
+	for _, r := range m.distinct() {
+		if m.isDup(r) {
+			anyDup = true
 		}
-		if cfg.Extra != "" {
-			sig += "/" + cfg.Extra
+	}
+	// Signature = clause / witness class / cause. The witness class is
+	// "rcpt-handed-twice" for the duplicate/retry clauses when the recipient (for
+	// message-level clauses: some recipient) was handed to the queue twice, else
+	// the downstream kind; plus for "lost" a marker when the recipient's domain had to be converted for a
+	// next hop without SMTPUTF8.
+	add := func(clause, r, cause, what string) {
+		sig := clause
+		dup := r != "" && m.isDup(r) || r == "" && anyDup
+		if dup && dupClauses[clause] && !strings.Contains(cause, "then=") {
+			sig += "/rcpt-handed-twice"
+		} else {
+			sig += "/kind=" + cfg.Kind
+		}
+		if clause == "lost" && r != "" && cfg.NoUTF8Hop && !isASCII(r) {
+			sig += "/idn-rcpt-at-hop-without-smtputf8"
 		}
 		if cause != "" {
 			sig += "/" + cause
@@ -472,7 +474,7 @@ func judge(cfg oracleCfg, m *msgSpec, atts []*attempt, reports []report) *verdic
 		if st.Delivered >= 1 && st.Reported >= 1 {
 			add("delivered-and-reported", r, "", fmt.Sprintf("recipient %q was committed downstream and also named in a failure report (%s)", r, hist))
 		}
-		if st.Delivered+st.Reported > 0 {
+		if st.Delivered+st.Reported > 0 || cfg.NotQuiescent {
 			continue
 		}
 		cause := "last=never-attempted"
@@ -504,4 +506,3 @@ func histOr(h string) string {
 	}
 	return h
 }
-
